@@ -65,6 +65,9 @@ def case(spec):
                     for e in extra:
                         if e not in chosen:
                             chosen.append(e)
+                    for e in ents:
+                        if e not in chosen and any(ch in '[]{}\\|^~@`' for ch in e.name) and rng.random() < 0.6:
+                            chosen.append(e)
                 for e in chosen:
                     sp = rng.choice(spellings(rng, e, drive, v.label, cur_dir, cur_drive, cur_vol))
                     cmds = [('type-binary', ['type', '--binary', sp])]
